@@ -22,14 +22,16 @@ type C20Case struct {
 	Rounds  int   `json:"rounds"`
 	Ops     []int `json:"ops"` // interleaved client-side operations (cycled by the side goroutines)
 	Real    bool  `json:"real"`
+	Idle    int   `json:"idle,omitempty"` // further sessions that have been initialised but hold no listening stream (sends to them fail)
 }
 
 func genC20(t *rapid.T) C20Case {
 	c := C20Case{Mode: rapid.SampledFrom([]Mode{ModeSJ, ModeSS, ModeSS, ModeLegacy, ModeStdio}).Draw(t, "mode"), Callers: rapid.IntRange(2, 8).Draw(t, "callers"), Rounds: rapid.IntRange(1, 4).Draw(t, "rounds"), Real: rapid.IntRange(0, 5).Draw(t, "real") == 0}
 	n := rapid.IntRange(2, 10).Draw(t, "nops")
 	for i := 0; i < n; i++ {
-		c.Ops = append(c.Ops, rapid.IntRange(0, 6).Draw(t, "op"))
+		c.Ops = append(c.Ops, rapid.IntRange(0, 7).Draw(t, "op"))
 	}
+	c.Idle = rapid.SampledFrom([]int{0, 0, 2, 3, 5}).Draw(t, "idle")
 	return c
 }
 
@@ -70,7 +72,12 @@ func execC20(c C20Case) *Failure {
 	if w.Srv != nil && c.Mode.Stateful() {
 		waitRegistered(w.Srv, 1) // the client's listening stream
 	}
-	ops := append(append([]int(nil), c.Ops...), 5, 0, 5, 1, 5, 6)
+	if w.Srv != nil && c.Mode.Stateful() {
+		for i := 0; i < c.Idle; i++ {
+			w.Direct("POST", "/mcp", map[string]string{"Content-Type": "application/json", "Accept": "application/json"}, InitRequest("0", "2025-03-26"))
+		}
+	}
+	ops := append(append([]int(nil), c.Ops...), 5, 0, 5, 1, 5, 6, 7)
 	provider := mcp.NewDefaultRootsProvider(mcp.Root{URI: "file:///a", Name: "a"})
 	cl.SetRootsProvider(provider)
 	var wg sync.WaitGroup
@@ -126,6 +133,11 @@ func execC20(c C20Case) *Failure {
 						}
 					}
 					w.Srv.BroadcastNotification("notifications/verif", map[string]interface{}{"x": i})
+				}
+			case 7:
+				if w.Srv != nil {
+					w.Srv.SendFilteredNotification("notifications/verif", map[string]interface{}{"x": i}, func(id string) bool { return len(id) > 0 && id[0]%2 == byte(i%2) })
+					w.Srv.BroadcastNotification("notifications/verif-b", nil)
 				}
 			case 6:
 				if sc, ok := cl.(mcp.SessionClient); ok {
